@@ -9,8 +9,8 @@ using namespace vf ;
 
 static Ctx ctx ;
 
-enum Mut { M_NONE = 0, M_TRUNC, M_TRUNC_FLIP, M_ZERO4, M_FF4, M_FLIP, M_SET4, M_SWAP, M_GROW, M_COUNT } ;
-static const char *mut_name [] = { "none", "truncate", "truncate_flip", "zero4", "ff4", "flip", "set4", "swap_chunks", "inflate_chunk" } ;
+enum Mut { M_NONE = 0, M_TRUNC, M_TRUNC_FLIP, M_ZERO4, M_FF4, M_FLIP, M_SET4, M_SWAP, M_GROW, M_SET8, M_COUNT } ;
+static const char *mut_name [] = { "none", "truncate", "truncate_flip", "zero4", "ff4", "flip", "set4", "swap_chunks", "inflate_chunk", "set8" } ;
 struct Cell { int mut ; long pos ; long arg ; } ;
 
 static std::vector<uint8_t> mutate (const std::vector<uint8_t> &seed, const Cell &c)
@@ -23,6 +23,10 @@ static std::vector<uint8_t> mutate (const std::vector<uint8_t> &seed, const Cell
 		case M_FF4 : for (size_t i = p ; i < p + 4 && i < n ; i++) d [i] = 0xff ; break ;
 		case M_FLIP : if (p < n) d [p] ^= (uint8_t) (c.arg ? c.arg : 1) ; break ;
 		case M_SET4 : { uint32_t v = consts [(size_t) c.arg % 12] ; bool be = ((size_t) c.arg / 12) & 1 ; for (size_t i = 0 ; i < 4 && p + i < n ; i++) d [p + i] = (uint8_t) (be ? v >> (24 - 8 * i) : v >> (8 * i)) ; } break ;
+		case M_SET8 :	// 64-bit size / frame-count fields (W64, CAF, RF64 ds64): values whose product with a channel count or block width overflows
+		{	static const uint64_t c8 [] = { 0x4000000000000000ull, 0x7fffffffffffffffull, 0x2000000000000001ull, 0x0000000100000000ull, 0xffffffffffffff00ull, 0x1000000000000000ull } ;
+			uint64_t v = c8 [(size_t) c.arg % 6] ; bool be = ((size_t) c.arg / 6) & 1 ; for (size_t i = 0 ; i < 8 && p + i < n ; i++) d [p + i] = (uint8_t) (be ? v >> (56 - 8 * i) : v >> (8 * i)) ;
+		} break ;
 		case M_SWAP :
 		{	auto cks = walk_iff (seed) ; if (cks.size () < 3) break ; size_t i = (size_t) c.pos % (cks.size () - 1), j = i + 1 ;
 			auto span = [&] (const ChunkPos &k) { size_t e = k.data + (size_t) k.size + ((size_t) k.size & 1) ; return std::make_pair (k.hdr, e > n ? n : e) ; } ;
@@ -65,6 +69,10 @@ static std::vector<Cell> cells_for (const SeedFile &s, bool thorough)
 		v.push_back ({ M_FLIP, p, 1 + (p * 37) % 255 }) ;
 		for (int a = 0 ; a < (thorough ? 24 : 6) ; a++) v.push_back ({ M_SET4, p, thorough ? a : (a * 5 + p) % 24 }) ;
 	}
+	{	int mj = s.format & SF_FORMAT_TYPEMASK ;
+		if (mj == SF_FORMAT_W64 || mj == SF_FORMAT_CAF || mj == SF_FORMAT_RF64)
+			for (long p = 0 ; p + 8 <= std::min<long> (n, s.rich ? 1024 : 256) ; p += 4) for (int a = 0 ; a < 36 ; a ++) v.push_back ({ M_SET8, p, a }) ;
+	}
 	for (auto &k : cks) { v.push_back ({ M_ZERO4, (long) k.hdr + 4, 0 }) ; v.push_back ({ M_FF4, (long) k.hdr + 4, 0 }) ; for (int a = 0 ; a < 24 ; a += thorough ? 1 : 4) v.push_back ({ M_SET4, (long) k.hdr + 4, a }) ; }
 	for (size_t i = 0 ; i + 1 < cks.size () ; i++) v.push_back ({ M_SWAP, (long) i, 0 }) ;
 	for (size_t i = 0 ; i < cks.size () ; i++) for (long a : { 1l, 2l, 8l, 23l, 24l, 25l, 48l, 281l, 1000l, 70000l }) v.push_back ({ M_GROW, (long) i, a }) ;
@@ -79,6 +87,7 @@ static Case cell_case (const SeedFile &s, const Cell &c)
 
 static std::vector<uint8_t> input_for (const SeedFile &s, const Cell &c)
 {	int ctl = 0 ; std::vector<uint8_t> ops = script_for (fnv_str (s.name) ^ ((uint64_t) c.mut << 48) ^ ((uint64_t) c.pos << 16) ^ (uint64_t) c.arg, ctl) ;
+	if (c.mut == M_SET8) ctl = (int) ((c.arg / 12) % 3) ;	// each 64-bit constant through every route: the pipe route has no file length to clamp a size field with
 	return join_input (mutate (s.bytes, c), ops, ctl) ;
 }
 
